@@ -61,19 +61,80 @@ Proof.
   - pose proof (IHd i H ltac:(lia)). destruct a; lia.
 Qed.
 
-Lemma step_fcomp_length : forall c s o, length (s_fcomp (fst (step c s o))) = length (s_fcomp s).
+Lemma inc_phase_pos_length : forall fs fc idx, length (fst (inc_phase_pos fs fc idx)) = length fc.
 Proof.
-  intros c s o. destruct o; simpl; auto.
+  induction fs; intros [|x fc] idx; simpl; auto.
+  destruct (_ <? _); simpl; auto.
+Qed.
+
+Lemma inc_completed_pos_length : forall fs fc idx r, inc_completed_pos fs fc idx = Some r ->
+  length (fst r) = length fc.
+Proof.
+  induction fs; intros [|x fc] idx r H; simpl in H; try discriminate.
+  destruct (idx <? f_r2 a).
+  - inversion H; subst. apply (inc_phase_pos_length (a :: fs) (x :: fc) idx).
+  - destruct (inc_completed_pos fs fc idx) eqn:E; simpl in H; inversion H; subst.
+    simpl. f_equal. eapply IHfs; eauto.
+Qed.
+
+Lemma upd_loop_length : forall fs done fc k idx, length (fst (upd_loop fs fc k idx done)) = length fc.
+Proof.
+  induction done as [|b r IH]; intros fc k idx; simpl; auto.
+  destruct b; auto.
+  destruct (inc_completed_pos (skipn k fs) (skipn k fc) idx) as [[fc2 d]|] eqn:E; simpl; auto.
+  rewrite IH. apply inc_completed_pos_length in E. simpl in E.
+  rewrite app_length, E, firstn_length, skipn_length. lia.
+Qed.
+
+Lemma update_completed_length : forall c done fc, (length fc <= length (c_files c))%nat ->
+  length (fst (update_completed c done fc)) = length fc.
+Proof.
+  intros c done fc H. unfold update_completed.
+  destruct (_ =? _); simpl.
+  - rewrite map_length, firstn_length. lia.
+  - destruct (_ =? _); simpl; [apply map_length|]. rewrite upd_loop_length. apply map_length.
+Qed.
+
+(* update_completed recounts from the bitfield alone: whatever the counters held before
+   (a previous session, a closed and re-opened torrent) does not survive *)
+Theorem update_completed_fresh : forall c done fc fc', length fc = length fc' ->
+  update_completed c done fc = update_completed c done fc'.
+Proof.
+  intros c done fc fc' H. unfold update_completed. rewrite H.
+  assert (E : map (fun _ : N => 0) fc = map (fun _ : N => 0) fc').
+  { clear -H. revert fc' H. induction fc; intros [|y fc'] H; simpl in *; try discriminate; auto.
+    f_equal. apply IHfc. lia. }
+  rewrite E. reflexivity.
+Qed.
+
+(* with nothing completed every per-file counter is 0 after update_completed / re-open *)
+Theorem update_completed_none : forall c done fc, count_true done = 0 -> 0 < size_chunks c ->
+  update_completed c done fc = (map (fun _ => 0) fc, true).
+Proof.
+  intros c done fc H Hn. unfold update_completed. rewrite H.
+  destruct (N.eqb_spec 0 (size_chunks c)); [lia|]. reflexivity.
+Qed.
+
+Lemma step_fcomp_length : forall c s o, length (s_fcomp s) = length (c_files c) ->
+  length (s_fcomp (fst (step c s o))) = length (c_files c).
+Proof.
+  intros c s o H. destruct o; simpl; auto.
   - unfold do_chunk. destruct (create_chunk _ _ _ _ _); simpl; auto.
     destruct w; [destruct (buffer_segs _ _ _)|]; simpl; auto.
   - unfold do_chunk. destruct (create_chunk _ _ _ _ _); simpl; auto.
     destruct w; [destruct (buffer_segs _ _ _)|]; simpl; auto.
   - destruct (_ || _); simpl; auto. destruct (nth _ _ _); simpl; auto.
-    destruct (inc_completed _ _ _) eqn:E; simpl; auto. eapply inc_completed_length; eauto.
+    destruct (inc_completed _ _ _) eqn:E; simpl; auto.
+    rewrite (inc_completed_length _ _ _ _ E). auto.
+  - rewrite update_completed_length; auto. lia.
+  - destruct (_ <? _); simpl; auto.
+  - rewrite update_completed_length; auto. lia.
+  - destruct (nth_error _ _); simpl; auto. destruct (f_pad _); simpl; auto.
 Qed.
 
-Lemma run_fcomp_length : forall c ops s, length (s_fcomp (fst (run c s ops))) = length (s_fcomp s).
-Proof. induction ops; intros; simpl; auto. rewrite IHops. apply step_fcomp_length. Qed.
+Lemma run_fcomp_length : forall c ops s, length (s_fcomp s) = length (c_files c) ->
+  length (s_fcomp (fst (run c s ops))) = length (c_files c).
+Proof. induction ops; intros; simpl; auto. apply IHops. apply step_fcomp_length. auto. Qed.
 
 Theorem mark_completed_total : forall cs lay ops idx, cfg_ok cs lay ->
   let c := mk_cfg cs lay in
@@ -83,9 +144,9 @@ Theorem mark_completed_total : forall cs lay ops idx, cfg_ok cs lay ->
 Proof.
   intros cs lay ops idx (H1 & H2 & H3 & H4 & H5) c s Hidx Hbit.
   assert (Hdl : N.of_nat (length (s_done s)) = size_chunks c).
-  { unfold s. rewrite run_done_length. simpl. rewrite repeat_length. lia. }
+  { unfold s. apply run_done_length. apply init_done_length. }
   assert (Hfl : length (s_fcomp s) = length (c_files c)).
-  { unfold s. rewrite run_fcomp_length. simpl. rewrite map_length. reflexivity. }
+  { unfold s. apply run_fcomp_length. simpl. rewrite map_length. reflexivity. }
   pose proof (count_true_lt (s_done s) (N.to_nat idx) Hbit ltac:(lia)) as Hcnt.
   simpl.
   destruct (N.leb_spec (size_chunks c) idx); [lia|].
@@ -99,4 +160,22 @@ Proof.
     rewrite E2. unfold size_chunks. rewrite <- Es, F3. reflexivity. }
   pose proof (inc_completed_some (c_files c) (s_fcomp s) idx j f Hfl F1 ltac:(lia)) as K.
   simpl in K. destruct (inc_completed (split cs 0 lay) (s_fcomp s) idx); [reflexivity|congruence].
+Qed.
+
+Lemma count_true_repeat_false : forall n, count_true (repeat false n) = 0.
+Proof. induction n; simpl; auto. Qed.
+
+(* close + re-open without resume data: bitfield all clear, every per-file counter back to 0,
+   file contents untouched *)
+Theorem reopen_resets : forall cs lay s, cfg_ok cs lay ->
+  let c := mk_cfg cs lay in
+  step c s OpReopen =
+  (mkState (s_store s) (repeat false (N.to_nat (size_chunks c))) (map (fun _ => 0) (s_fcomp s)),
+   OutUpd true).
+Proof.
+  intros cs lay s (H1 & H2 & H3 & H4 & H5) c. simpl.
+  rewrite update_completed_none.
+  - reflexivity.
+  - apply count_true_repeat_false.
+  - apply (size_chunks_pos c); auto.
 Qed.
